@@ -218,6 +218,9 @@ impl<'a> Evaluator<'a> {
             ast::Expr::BinOp(a, op, b) => {
                 let a_value = self._const_eval(a)?;
                 let b_value = self._const_eval(b)?;
+                if op.is_const_division_by_zero(&b_value) {
+                    return Err(self.emitter.emit(crate::passes::const_simplify::division_by_zero_error(op.span, b.span)));
+                }
                 return Ok(op.const_eval(a_value, b_value));
             },
 
